@@ -58,12 +58,18 @@ Print Assumptions label_document_roundtrip_refuted.
 (* ... and true on exactly the class of label sets whose names and values consist of printable ASCII
    (quotes and backslashes included), \b \f \n \r \t, well-formed UTF-8 runes that IsPrint accepts
    (copied raw) and well-formed non-printable runes below U+10000 (rendered \uXXXX, which is JSON),
-   for every IsPrint oracle. Outside the class (other control bytes, 0x7f, ill-formed UTF-8,
-   non-printable runes from U+10000) the document is not JSON: checked per generated set, not proved. *)
+   for every IsPrint oracle. *)
 Theorem label_document_roundtrip_partial : forall isprint ls,
   labels_json_ok isprint ls = true -> json_decode (encode_labels isprint ls) = Some ls.
 Proof. exact label_document_roundtrip_ok. Qed.
 Print Assumptions label_document_roundtrip_partial.
+
+(* The class is exact: outside it (any other control byte, 0x7f, ill-formed UTF-8 - also produced by
+   the cut at byte 100 -, a non-printable rune from U+10000) the stored document is not JSON at all. *)
+Theorem label_document_roundtrip_exact : forall isprint ls,
+  json_decode (encode_labels isprint ls) = Some ls <-> labels_json_ok isprint ls = true.
+Proof. exact label_document_roundtrip_iff. Qed.
+Print Assumptions label_document_roundtrip_exact.
 
 (* the oracle-free special case: bytes that are printable ASCII or one of \b \f \n \r \t *)
 Theorem label_document_roundtrip_partial_ascii : forall isprint ls,
